@@ -38,6 +38,7 @@ ASSUMPTIONS = [
     "the native solver behind the proxies is an ideal SMT-LIB assertion stack (played by a strict stack object in the harness)",
     "formulas, weights, objectives are opaque to the bookkeeping (the harness uses Boolean symbols and their negations; is_valid is given atoms, because FormulaManager.Not collapses double negation)",
     "_last_command/_last_result of IncrementalTrackingSolver are not part of the property",
+    "the native check itself does not raise (SolverReturnedUnknownResultError etc. are not modelled)",
 ]
 
 # --------------------------------------------------------------------------------------------- spec oracle
@@ -379,6 +380,9 @@ class PySide(object):
                 break
             except NotImplementedError:
                 out.append("err not-implemented")
+                break
+            except Exception as e:              # anything else is an outcome of its own (never swallowed)
+                out.append("err " + type(e).__name__)
                 break
             out.append(self.snapshot(s, tracking))
         return out, reads, s
@@ -783,13 +787,62 @@ def _compare_tracks(cfg, who, cases, impl, model, res, search):
                            "spec_live": ";".join(lives), "step": i}))
 
 
+
+# --------------------------------------------------------------------------------------------- shrinking
+def legal_of(toks, solver_ops):
+    o = Oracle()
+    for t in toks:
+        tt = (t if t[0] in "aupr" else "c") if solver_ops else t
+        if not o.legal(tt):
+            return False
+        o.step(tt)
+    return True
+
+
+def shrink(sig, rep):
+    """Delete commands while the implementation still fails with the same signature (≤ 200 attempts; the
+    implementation and the Python oracle only, no driver)."""
+    kind = rep.get("kind")
+    if kind not in ("script", "strict", "track"):
+        return rep, None
+    key = "ops" if kind == "track" else "cmds"
+    toks = rep[key].split()
+    what = None
+    attempts = 0
+
+    def fails(ts):
+        r = Result()
+        if kind == "track":
+            check_tracks(rep["cfg"], rep.get("who", "?"), [(ts, legal_of(ts, True))], r, True, use_lean=False)
+        else:
+            check_scripts([(ts, legal_of(ts, False))], r, use_lean=False)
+        for (sg, wh, rp) in r.s:
+            if all(sg.get(k) == v for k, v in sig.items() if k != "after"):
+                return wh, rp
+        return None
+    changed = True
+    while changed and attempts < 200:
+        changed = False
+        for i in range(len(toks)):
+            cand = toks[:i] + toks[i + 1:]
+            attempts += 1
+            got = fails(cand)
+            if got is not None:
+                toks, (what, newrep) = cand, got
+                rep = dict(newrep, shrunk_from=rep.get("shrunk_from", rep[key]))
+                changed = True
+                break
+            if attempts >= 200:
+                break
+    return rep, what
+
 # --------------------------------------------------------------------------------------------- work units
 def weight(task):
     k = task["kind"]
     if k == "script_enum":
         return 3 * 13 ** (task["depth"] - len(task["prefix"]))
     if k == "track_enum":
-        return 2 * 14 ** (task["depth"] - len(task["prefix"]))
+        return 2 * (12 if task.get("drop") else 14) ** (task["depth"] - len(task["prefix"]))
     return 25 * task["n"]
 
 
@@ -806,7 +859,7 @@ def work(bundle):
                 cases = [(list(t), l) for (t, l) in enum_sequences(SCRIPT_ALPHA, task["depth"], task["prefix"], False)]
                 check_scripts(cases, res, batch=batch)
             elif kind == "track_enum":
-                alpha = track_alpha(task["cfg"])
+                alpha = [a for a in track_alpha(task["cfg"]) if a not in task.get("drop", ())]
                 if any(a not in alpha for a in task["prefix"]):
                     continue
                 cases = [(list(t), l) for (t, l) in enum_sequences(alpha, task["depth"], task["prefix"], True)]
@@ -857,8 +910,18 @@ def merge(ctx, res, agg):
     for what, rep in res.k:
         if len(ctx.k_divergences) < 50:
             ctx.report_k(what, rep)
+    shrunk = agg.setdefault("shrunk_sigs", set())
     for sig, what, rep in res.s:
         if len(ctx.s_violations) < 200:
+            key = repr(sorted(sig.items()))
+            if key not in shrunk and len(shrunk) < 8:
+                shrunk.add(key)
+                try:
+                    rep2, what2 = shrink(sig, rep)
+                    if what2 is not None:
+                        rep, what = rep2, what2
+                except Exception:
+                    pass
             ctx.report_s(sig, what, rep)
     seen_l = agg.setdefault("l_seen", set())
     for what, detail in res.l:
@@ -953,6 +1016,27 @@ for i, s in enumerate(syms):
 fid = {v: k for k, v in form.items()}
 job = json.load(sys.stdin)
 out = {}
+# linearisation and decorators of the live native wrapper classes (compared with the translator's table)
+cls_info = {}
+for mod, cls in job.get("classes", []):
+    try:
+        import importlib
+        k = getattr(importlib.import_module(mod), cls)
+    except Exception as e:
+        continue
+    deco = []
+    for m, f in k.__dict__.items():
+        if isinstance(f, property):
+            f = f.fget
+        g = f
+        while g is not None:
+            if getattr(getattr(g, "__code__", None), "co_name", "") == "clear_pending_pop_wrap":
+                deco.append(m)
+                break
+            g = getattr(g, "__wrapped__", None)
+    cls_info[mod + "." + cls] = {"mro": ["%s.%s" % (b.__module__, b.__name__) for b in k.__mro__ if b is not object],
+                                 "decorated": sorted(deco)}
+out["_classes"] = cls_info
 for name in job["solvers"]:
     res = []
     try:
@@ -992,7 +1076,7 @@ def consistent(lits):
     return not any((x ^ 1) in s for x in s)
 
 
-def native_check(ctx):
+def native_check(ctx, seqs=None, solvers=("z3", "cvc5")):
     """Secondary run (thorough tier): the same kind of sequences on the REAL Z3Solver and CVC5Solver, under the
     tooling interpreter that has the native modules.  Formulas are literals, so the truth of every query is known:
     sat iff no atom occurs with both polarities among the live assertions (+ the query's formula)."""
@@ -1003,43 +1087,71 @@ def native_check(ctx):
         ctx.extra["native_wrappers"] = "python3-vt not available; skipped"
         return
     rng = ctx.rng
-    seqs = []
-    for _ in range(400):
-        n = rng.randrange(4, 25)
-        toks, nlev = [], 1
-        for i in range(n):
-            r = rng.random()
-            lit = 2 * rng.randrange(4) + rng.randrange(2)
-            if r < 0.25:
-                toks.append("a%d" % lit)
-            elif r < 0.37:
-                k = rng.randrange(3)
-                toks.append("u%d" % k)
-                nlev += k
-            elif r < 0.50:
-                k = rng.randrange(min(3, nlev))
-                toks.append("p%d" % k)
-                nlev -= k
-            elif r < 0.55:
-                toks.append("r")
-                nlev = 1
-            elif r < 0.70:
-                toks.append("s")
-            elif r < 0.92:
-                q = rng.choice("svua")
-                toks.append("q%s%d" % (q, 2 * rng.randrange(4) + (0 if q == "v" else rng.randrange(2))))
-            else:
-                toks.append("g")
-        seqs.append(toks)
+    given = seqs is not None
+    seqs = list(seqs or [])
+    for _ in range(0 if given else 400):
+        seqs.append(native_sequence(rng))
+    _native_compare(ctx, exe, seqs, list(solvers))
+
+
+def native_sequence(rng):
+    n = rng.randrange(4, 25)
+    toks, nlev = [], 1
+    for i in range(n):
+        r = rng.random()
+        lit = 2 * rng.randrange(4) + rng.randrange(2)
+        if r < 0.25:
+            toks.append("a%d" % lit)
+        elif r < 0.37:
+            k = rng.randrange(3)
+            toks.append("u%d" % k)
+            nlev += k
+        elif r < 0.50:
+            k = rng.randrange(min(3, nlev))
+            toks.append("p%d" % k)
+            nlev -= k
+        elif r < 0.55:
+            toks.append("r")
+            nlev = 1
+        elif r < 0.70:
+            toks.append("s")
+        elif r < 0.92:
+            q = rng.choice("svua")
+            toks.append("q%s%d" % (q, 2 * rng.randrange(4) + (0 if q == "v" else rng.randrange(2))))
+        else:
+            toks.append("g")
+    return toks
+
+
+def _native_compare(ctx, exe, seqs, solvers):
+    import json
     env = dict(os.environ, PYTHONPATH=common.REPO)
     try:
-        p = subprocess.run([exe, "-c", NATIVE_CHILD], input=json.dumps({"solvers": ["z3", "cvc5"], "seqs": seqs}),
+        sys.path.insert(0, os.path.join(common.VERIF, "tools"))
+        import gen_pendingpop
+        tbl = gen_pendingpop.table(common.REPO)
+        wanted = [c["name"].rsplit(".", 1) for c in tbl]
+        p = subprocess.run([exe, "-c", NATIVE_CHILD], input=json.dumps({"solvers": solvers, "seqs": seqs, "classes": wanted}),
                            capture_output=True, text=True, timeout=600, env=env, cwd="/tmp")
         out = json.loads(p.stdout)
     except Exception as e:
         ctx.extra["native_wrappers"] = "child failed: %r" % (e,)
         return
     summary = {}
+    live = out.pop("_classes", {})
+    names = set(c["name"] for c in tbl)
+    for c in tbl:
+        lv = live.get(c["name"])
+        if lv is None:
+            continue
+        real = [m for m in lv["mro"] if m in names]
+        if real != c["mro"]:
+            ctx.report_k("linearisation of %s: translator %s, Python %s" % (c["name"], c["mro"], real),
+                         {"kind": "placement", "class": c["name"]})
+        if sorted(c["decorated"]) != sorted(m for m in lv["decorated"]):
+            ctx.report_k("decorated methods of %s: translator %s, live class %s" % (c["name"], sorted(c["decorated"]), lv["decorated"]),
+                         {"kind": "placement", "class": c["name"]})
+    summary["classes_checked_live"] = sorted(n.rsplit(".", 1)[1] for n in live)
     for name, res in out.items():
         if isinstance(res, str):
             summary[name] = res
@@ -1099,22 +1211,23 @@ def plan(ctx, placements):
         if p["concrete"] and p["usesBaseIsSat"]:
             by_cfg.setdefault(cfg_bits(p), []).append(n.rsplit(".", 1)[1])
     tdepth = 4 if quick else 5
-    zdepth = 5 if quick else 6          # the placement of Z3Solver / MathSAT5Solver / BoolectorSolver goes one deeper
+    zdepth = 4 if quick else 6          # thorough: the placement of Z3Solver / MathSAT5Solver / BoolectorSolver goes one deeper
     for cfg, who in sorted(by_cfg.items()):
         w = "+".join(who)
         alpha = track_alpha(cfg)
-        deep = "Z3Solver" in who
+        deep = "Z3Solver" in who and zdepth > tdepth
         for a in alpha:
+            tasks.append({"kind": "track_enum", "cfg": cfg, "who": w, "depth": tdepth, "prefix": [a], "search": True})
             if deep:
+                # one level deeper without the no-op symbols push 0 / pop 0 (they are covered up to `tdepth`)
                 for b in alpha:
-                    tasks.append({"kind": "track_enum", "cfg": cfg, "who": w, "depth": zdepth, "prefix": [a, b], "search": True})
-            else:
-                tasks.append({"kind": "track_enum", "cfg": cfg, "who": w, "depth": tdepth, "prefix": [a], "search": True})
+                    tasks.append({"kind": "track_enum", "cfg": cfg, "who": w, "depth": zdepth, "prefix": [a, b],
+                                  "search": True, "drop": ["u0", "p0"]})
         # sequences of length 1 (and, for 2-symbol prefixes, those whose second call is already illegal)
-        tasks.append({"kind": "track_enum", "cfg": cfg, "who": w, "depth": 2 if deep else 1, "prefix": [], "search": True})
+        tasks.append({"kind": "track_enum", "cfg": cfg, "who": w, "depth": 1, "prefix": [], "search": True})
         for j in range(2 if quick else 8):
             tasks.append({"kind": "track_random", "cfg": cfg, "who": w, "seed": sd + 100 + j,
-                          "n": 400 if quick else 2500, "search": True})
+                          "n": 600 if quick else 2500, "search": True})
     # ... and deliberately different placements (K only: the model must follow the code there too)
     others = ["111110110", "111111011", "000000011", "000000111", "110111111", "111011111", "101111111",
               "011111111", "111101111", "111111110", "111110111"]
@@ -1158,8 +1271,10 @@ def run(ctx):
         native_check(ctx)
     ctx.extra["exhaustive"] = True
     ctx.extra["exhaustive_scope"] = ("scripts: every sequence over the 13-symbol alphabet up to length %d; solvers: every sequence "
-                                     "over the 14-symbol alphabet up to length %d (Z3Solver placement: %d) for each placement in "
-                                     "`placements_searched`" % (info["script_depth"], info["track_depth"], info["z3_depth"]))
+                                     "over the 14-symbol alphabet up to length %d for each placement in `placements_searched`"
+                                     % (info["script_depth"], info["track_depth"])) + (
+        "; Z3Solver placement: additionally length %d over the alphabet without push 0 / pop 0" % info["z3_depth"]
+        if info["z3_depth"] > info["track_depth"] else "")
     ctx.extra["placements_searched"] = info["placements_searched"]
     ctx.extra["transitions"] = agg.get("steps", 0)
     ctx.extra["states"] = len(agg.get("states", ()))
@@ -1197,6 +1312,14 @@ def replay(ctx, rep):
     elif kind == "placement":
         gen, tbl = load_table(ctx)
         check_table(ctx, gen, tbl)
+    elif kind == "native":
+        n0 = len(ctx.s_violations)
+        native_check(ctx, seqs=[r["ops"].split()], solvers=(r["solver"],))
+        for v in ctx.s_violations[n0:]:
+            print("replay: still failing: %s" % v["what"])
+        if len(ctx.s_violations) == n0:
+            print("replay: the case passes on the current tree (%s)" % (ctx.extra.get("native_wrappers"),))
+        return
     merge(ctx, res, {})
     for (sig, what, rp) in res.s:
         print("replay: still failing: %s" % what)
